@@ -97,6 +97,55 @@ def closure_funcs(ctx, gm) -> Dict[str, FuncInfo]:
 # definite assignment
 # ----------------------------------------------------------------------------------------------
 
+def _eval_order(node: ast.AST):
+    """Name nodes of an expression or simple statement in the order Python evaluates them (comprehensions: iterable, conditions, then the element;
+    `x := v`: v, then x; assignments: value, then targets)."""
+    if isinstance(node, ast.Name):
+        yield node
+        return
+    if isinstance(node, (ast.ListComp, ast.SetComp, ast.GeneratorExp, ast.DictComp)):
+        for g in node.generators:
+            yield from _eval_order(g.iter)
+            yield from _eval_order(g.target)
+            for c in g.ifs:
+                yield from _eval_order(c)
+        if isinstance(node, ast.DictComp):
+            yield from _eval_order(node.key)
+            yield from _eval_order(node.value)
+        else:
+            yield from _eval_order(node.elt)
+        return
+    if isinstance(node, ast.NamedExpr):
+        yield from _eval_order(node.value)
+        yield node.target
+        return
+    if isinstance(node, (ast.Assign, ast.AnnAssign, ast.AugAssign)):
+        if node.value is not None:
+            yield from _eval_order(node.value)
+        for t in (node.targets if isinstance(node, ast.Assign) else [node.target]):
+            yield from _eval_order(t)
+        return
+    if isinstance(node, (ast.FunctionDef, ast.AsyncFunctionDef, ast.Lambda, ast.ClassDef)):
+        return
+    for ch in ast.iter_child_nodes(node):
+        yield from _eval_order(ch)
+
+
+def _walrus_bound_reads(node: ast.AST) -> Set[int]:
+    """ids of the Name reads that, inside this one expression/statement, are evaluated after a `name := ...` of the same name."""
+    if not any(isinstance(x, ast.NamedExpr) for x in ast.walk(node)) or isinstance(node, (ast.If, ast.While, ast.For, ast.With, ast.Try, ast.Match)):
+        return set()
+    targets = {id(x.target) for x in ast.walk(node) if isinstance(x, ast.NamedExpr)}
+    bound: Set[str] = set()
+    out: Set[int] = set()
+    for nm in _eval_order(node):
+        if id(nm) in targets:
+            bound.add(nm.id)
+        elif isinstance(nm.ctx, ast.Load) and nm.id in bound:
+            out.add(id(nm))
+    return out
+
+
 def unbound_reads(fn: ast.AST) -> List[Tuple[str, ast.AST]]:
     """(name, node) for reads of a local on a path where it was never bound.  Paths with contradictory
     outcomes of one and the same test (no intervening store to its variables) are pruned."""
@@ -172,9 +221,10 @@ def unbound_reads(fn: ast.AST) -> List[Tuple[str, ast.AST]]:
                 for al in ev.node.names:
                     sts.append((al.asname or al.name).split('.')[0])
             else:
+                after_walrus = _walrus_bound_reads(ev.node) if ev.node is not None else set()
                 for x in walk_event(ev):
                     if isinstance(x, ast.Name):
-                        if isinstance(x.ctx, ast.Load) and id(x) not in comp_vars:
+                        if isinstance(x.ctx, ast.Load) and id(x) not in comp_vars and id(x) not in after_walrus:
                             reads.append(x)
                         elif isinstance(x.ctx, ast.Store) and id(x) not in comp_vars:
                             sts.append(x.id)
